@@ -99,7 +99,16 @@ fn gen_line(rng: &mut Rng) -> String {
     }
     for i in 0..n {
         if i > 0 {
-            s.push_str(if rng.chance(0.1) { "  " } else if rng.chance(0.05) { "\t" } else { " " });
+            s.push_str(match rng.below(24) {
+                0 | 1 => "  ",
+                2 => "\t",
+                3 => "\u{000b}",
+                4 => "\u{000c}",
+                5 => "\u{00a0}",
+                6 => "\u{2003}",
+                7 => "\u{3000}",
+                _ => " ",
+            });
         }
         s.push_str(*rng.pick(WORDS));
     }
